@@ -79,10 +79,10 @@ def rev_iter(ctx, rule):
     # comparisons: forward stops at dst_col (UTF-16), backward after chars_to_move UTF-16 units
     sw = [q.shape(b.expr_of_operand(b.blocks[d]["term"]["discr"]), roles) for d in range(len(b.blocks)) if b.blocks[d]["term"]["k"] == "switch" and not b.blocks[d]["cleanup"]]
     TOK = "try(Option::take(arg1.token))"
-    ctx.check("Le(cast<usize>(Token::get_dst_col(%s)),U1)" % TOK in sw, rule, fn, "forward:stop", "the forward scan stops when the UTF-16 counter reaches the token's column", detail=str([s for s in sw if "U1" in s]))
-    ctx.check("Le(Sub(var:(&str, usize, usize).1,cast<usize>(Token::get_dst_col(%s))),U2)" % TOK in sw, rule, fn, "backward:stop",
+    ctx.check(any(q.same_test(x, "Le(cast<usize>(Token::get_dst_col(%s)),U1)" % TOK) for x in sw), rule, fn, "forward:stop", "the forward scan stops when the UTF-16 counter reaches the token's column", detail=str([s for s in sw if "U1" in s]))
+    ctx.check(any(q.same_test(x, "Le(Sub(var:(&str, usize, usize).1,cast<usize>(Token::get_dst_col(%s))),U2)" % TOK) for x in sw), rule, fn, "backward:stop",
               "the backward scan covers (cached column - token column) UTF-16 units", detail=str([s for s in sw if "U2" in s]))
-    ctx.check("Eq(cast<usize>(Token::get_dst_line(%s)),try(arg1.source_line).1)" % TOK in sw, rule, fn, "cache:same-line", "the cached line is reused only for a token on the same generated line")
+    ctx.check(any(q.same_test(x, "Eq(cast<usize>(Token::get_dst_line(%s)),try(arg1.source_line).1)" % TOK) for x in sw), rule, fn, "cache:same-line", "the cached line is reused only for a token on the same generated line")
     # cached tuple order
     stores = [q.shape(b.expr_of_rvalue(s["rv"]), roles) for bi, si, s, it in b.locations() if not it and s["k"] == "assign" and s["place"]["p"] and s["place"]["p"][-1].get("n") == "source_line"]
     want = "Option::Some{0:tuple(var:(&str, usize, usize).0,cast<usize>(Token::get_dst_line(%s)),cast<usize>(Token::get_dst_col(%s)),var:usize)}" % (TOK, TOK)
@@ -94,7 +94,7 @@ def rev_iter(ctx, rule):
         ctx.check(ds == ["NEW", "OFF"], rule, fn, "byte_offset", "the token's byte offset is the forward or the backward byte counter (never a UTF-16 count)", detail=str(ds))
     gets = [q.shape(b.expr_of_call(t), roles) for bi, t in q.calls_to(b, "str::get")]
     ctx.check(len(gets) == 2 and not [1 for bi, t in q.calls_to(b, "Index::index")], rule, fn, "non-panicking-slices", "the line is sliced only with the non-panicking str::get", detail=str(gets))
-    ctx.check(any(s == "Le(str::len(var:(&str, usize, usize).0),var:usize)" for s in sw), rule, fn, "out-of-range", "an offset at or past the end of the line yields no text")
+    ctx.check(any(q.same_test(s, "Le(str::len(var:(&str, usize, usize).0),var:usize)") for s in sw), rule, fn, "out-of-range", "an offset at or past the end of the line yields no text")
     prev = [q.shape(b.expr_of_call(t)) for bi, t in q.calls_to(b, "types::SourceMap::get_token")]
     ctx.check(prev == ["SourceMap::get_token(%s.sm,Sub(%s.idx,1))" % (TOK, TOK)], rule, fn, "prev-token", "the next element is the token with the preceding index of the same map", detail=str(prev))
     for bi, t in q.calls_to(b, "types::SourceMap::get_token"):
@@ -168,7 +168,7 @@ def strip_shape(ctx, rule):
     ctx.check(ok, rule, v.path, "whole-string", "a string is an identifier exactly when stripping keeps its whole length", detail=str(rets))
     g = ctx.body("js_identifiers::get_javascript_token")
     calls = [q.shape(g.expr_of_call(t)) for bi, t in g.calls()]
-    ctx.check("js_identifiers::strip_identifier(try(Iterator::next(str::split_whitespace(arg1))))" in calls, rule, g.path, "first-word", "token text is the identifier at the start of the first whitespace-separated word", detail=str(calls))
+    ctx.check("js_identifiers::strip_identifier(try(Iterator::next(str::split_whitespace(arg1))))" in calls or "Option::and_then(Iterator::next(str::split_whitespace(arg1)),fn:js_identifiers::strip_identifier)" in calls, rule, g.path, "first-word", "token text is the identifier at the start of the first whitespace-separated word", detail=str(calls))
 
 
 def fn_pf(ctx, rule):
